@@ -233,6 +233,13 @@ impl<'a> Tx<'a> {
                 let op = crate::emit::toks(&b.op);
                 format!("({} {} {})", self.expr(&b.left), op, self.expr(&b.right))
             }
+            syn::Expr::Field(fe) if self.ops && self.f.owner == "NodeIter" && matches!(&*fe.base, syn::Expr::Path(pp) if pp.path.is_ident("self")) => {
+                // R41: the iterator object is an ordinary struct of the arena program
+                format!("self.{}", toks(&fe.member))
+            }
+            syn::Expr::Field(fe) if self.ops && matches!(&fe.member, syn::Member::Named(i) if i == "node") && self.node_ptr(&fe.base).is_some() => {
+                self.node_ptr(&fe.base).unwrap()
+            }
             syn::Expr::Field(fe) if self.ops && matches!(&*fe.base, syn::Expr::Path(pp) if pp.path.is_ident("changed")) => {
                 format!("changed_{}", toks(&fe.member))
             }
@@ -533,6 +540,7 @@ impl<'a> Tx<'a> {
                 self.err(&format!("store to `{}`", toks(&*m.receiver)), m.span());
                 String::new()
             }
+            "expect" | "unwrap" if self.ops && toks(&*m.receiver).replace(' ', "").starts_with("self.") => format!("{}.unwrap()", self.expr(&m.receiver)),
             "expect" | "unwrap" | "as_node" | "as_tree_node" if self.self_ptr => {
                 let e = syn::Expr::MethodCall(m.clone());
                 match self.node_ptr(&e) {
@@ -548,6 +556,13 @@ impl<'a> Tx<'a> {
                 let k = self.expr(&m.args[0]);
                 format!("h.hash_of({})", k)
             }
+            "push_state" | "recover_state" if self.ops && toks(&*m.receiver) == "self" => {
+                let args: Vec<String> = m.args.iter().map(|a| self.expr(a)).collect();
+                format!("self.{}({})", name, args.join(", "))
+            }
+            "as_ref" if self.ops => self.expr(&m.receiver),
+            "unwrap" | "expect" if self.ops && toks(&*m.receiver).replace(' ', "").starts_with("self.") => format!("{}.unwrap()", self.expr(&m.receiver)),
+            "next_table" if self.ops => format!("h.next_table({})", self.expr(&m.receiver)),
             "iter" if self.ops && toks(&*m.receiver) == "self" => "iter_new(h, this)".to_string(),
             "next_internal" if self.ops => format!("iter_next(h, &mut {})", self.expr(&m.receiver)),
             "replace_node" | "put" if self.ops && toks(&*m.receiver) == "self" => {
